@@ -57,7 +57,7 @@ Definition control_fetch (id held nonce : list Z) (man : option (option manifest
 (* ---- wire ----
    input: mode(1 | 3)  then the store inputs of the content family: id32 t n data key32 nonce12 rnd kind pos val seed
    mode 1: nf, then nf hostile actions (code bytes): the model has nothing to say about them but that the node keeps serving
-   mode 3: nr requests, each: 0 raw-bytes | 1 manifest-kind(0 absent, 1 genuine, 2 the corrupted one, 3 undecodable)
+   mode 3: nr requests, each: 0 raw-bytes | 2 stream(0/1): a genuine FETCH whose sender hangs up before the answer | 1 manifest-kind(0 absent, 1 genuine, 2 the corrupted one, 3 undecodable)
            out-kind(0 absent, 1 empty, 2 a file in an existing directory, 3 a path below a regular file) stream(0/1)
    output mode 1: probe cached probe ack probe, then one probe per action (a probe is 1: the honest peer was served)
    output mode 3 per request: 0 (nothing escaped the handler), the response code (-9 for raw bytes), 1 (PING answered) *)
@@ -72,6 +72,7 @@ Fixpoint requests (fuel : nat) (id held nonce : list Z) (m m' : manifest) (l : l
   | S f =>
       let '(rk, l) := w_next l in
       if rk =? 0 then let '(_, l) := w_bytes l in [0; -9; 1] ++ requests f id held nonce m m' l
+      else if rk =? 2 then let '(_, l) := w_next l in [0; -9; 1] ++ requests f id held nonce m m' l   (* the client hangs up before the answer *)
       else
         let '(mk, l) := w_next l in let '(ok, l) := w_next l in let '(st, l) := w_next l in
         let man := if mk =? 0 then None else if mk =? 1 then Some (Some m) else if mk =? 2 then Some (Some m') else Some None in
